@@ -361,7 +361,7 @@ def check_run(ctx, drv, cfg, limits, scout_stream=None, tag_extra=None):
         if pts[i] != ev["seen"]:
             viol("point-count", {"evaluation": i, "reported": pts[i], "distinct_evaluations": ev["seen"]})
             break
-    if n and out["f"].get_f_dict_size() != len(out["f"].seen):
+    if n and not runaway and out["f"].get_f_dict_size() != len(out["f"].seen):
         viol("point-count", {"final_reported": out["f"].get_f_dict_size(), "distinct_evaluations": len(out["f"].seen)})
     # reported error = deviation of the reported result from the reference
     import numpy as np
@@ -387,7 +387,7 @@ def check_run(ctx, drv, cfg, limits, scout_stream=None, tag_extra=None):
         # the model (fed the scout stream) says where the run must stop; a cut run contradicts any such prediction, and
         # a scout run (tol=-1, finite max) that does not stop means that the point count stopped growing
         corr("stop", "no stop within %d evaluations" % n_eval, "nostop" if (scout_stream is not None and pred is None) else
-             ("stop i=%d" % pred["i"] if pred else "a run with tol=-1 and a finite max_evaluations stops"))
+             ("stop i=%d" % pred["i"] if pred else "every generated run stops (scout runs: tol=-1 with a finite max_evaluations)"))
         return ok, None
     # ---- correspondence --------------------------------------------------------------------------------------------
     if scout_stream is not None:
